@@ -431,6 +431,24 @@ def _finish(pid, hname, h, tier, seed, results, real, t0, limits, conformance=''
     for m in sorted(set(inconcl))[:5]:
         messages.append("INCONCLUSIVE: %s" % m)
 
+    # --- optional cross-check by a second, independent symbolic engine (CrossHair) in the thorough tier
+    crosshair = None
+    ch_file = getattr(h, 'CROSSHAIR', None)
+    if ch_file and tier == 'thorough':
+        try:
+            cp = subprocess.run([sys.executable, '-m', 'crosshair', 'check', '--report_all', '--per_condition_timeout', '300',
+                                 os.path.join(ROOT, ch_file)], capture_output=True, text=True, timeout=1200, cwd=ROOT)
+            out_lines = (cp.stdout + cp.stderr).strip().splitlines()
+            crosshair = dict(file=ch_file, output=out_lines[-6:])
+            confirmed = any('Confirmed over all paths' in ln for ln in out_lines)
+            refuted = any(': error:' in ln and 'false when calling' in ln for ln in out_lines)
+            crosshair['verdict'] = 'refuted' if refuted else ('confirmed' if confirmed else 'inconclusive')
+            if refuted and status == EXIT_OK:
+                status = EXIT_HARNESS
+                messages.append("HARNESS-ERROR: CrossHair reports a counterexample where symx proved the property: %s" % out_lines[-3:])
+        except Exception as e:
+            crosshair = dict(file=ch_file, verdict='inconclusive', output=[repr(e)])
+
     # --- evidence
     samples = []
     for (cfg, w), rr in list(zip(wmeta, wres))[:3]:
